@@ -120,6 +120,35 @@ pub fn build_input(family: &str, d: usize) -> Vec<u8> {
             v.extend_from_slice(&(d as u32).to_be_bytes());
             v.resize(5 + d, 5);
         }
+        "object-name-4byte" | "object-name-a4byte" | "string-4byte" | "string-a4byte" | "object-name-4byte-cut" | "string-4byte-cut" => {
+            // a property name / string of about d bytes made of 4-byte characters (optionally shifted by one ASCII
+            // byte), so that any fixed truncation or buffering offset falls inside a character; "-cut": the input
+            // ends 3 bytes before the declared length
+            let mut text: Vec<u8> = Vec::new();
+            if family.contains("a4byte") {
+                text.push(b'a');
+            }
+            while text.len() + 4 <= d.max(4) {
+                text.extend_from_slice("\u{1D11E}".as_bytes());
+            }
+            let l = text.len().min(65_535);
+            let text = &text[..l];
+            if family.starts_with("object") {
+                v.push(3);
+                v.extend_from_slice(&(l as u16).to_be_bytes());
+                v.extend_from_slice(text);
+                v.push(5);
+                v.extend_from_slice(&[0, 0, 9]);
+            } else {
+                v.push(2);
+                v.extend_from_slice(&(l as u16).to_be_bytes());
+                v.extend_from_slice(text);
+            }
+            if family.ends_with("-cut") {
+                let n = if family.starts_with("object") { 7 } else { 3 };
+                v.truncate(v.len().saturating_sub(n));
+            }
+        }
         f if f.starts_with("nest:") => {
             // "nest:<prefix>:<body>": the prefix units once, then d units cycling through the body pattern
             // (A = strict array of one element, O = object with one property, E = ECMA array with one property)
@@ -261,6 +290,12 @@ pub fn run(run: &Run) {
             for d in ladder {
                 cases.push((format!("nest:{}:{}", p, b), d, 2048));
             }
+        }
+    }
+    // long multi-byte names and strings (truncation / chunked validation at a fixed offset)
+    for fam in ["object-name-4byte", "object-name-a4byte", "string-4byte", "string-a4byte", "object-name-4byte-cut", "string-4byte-cut"] {
+        for d in [8usize, 200, 252, 256, 260, 1020, 1024, 1028, 4092, 4096, 4100, 8192, 8200, 65_532, 65_535] {
+            cases.push((fam.to_string(), d, 2048));
         }
     }
     // every marker byte followed by a maximal length / count field
